@@ -23,6 +23,7 @@ import (
 )
 
 type relProver struct {
+	initOnly map[*ssa.Global]bool
 	e        *e4Engine
 	budget   int
 	assumeLo map[ssa.Value]int64
@@ -106,6 +107,14 @@ func (p *relProver) same(a, b ssa.Value) bool {
 	}
 	if a == nil || b == nil {
 		return false
+	}
+	// two loads of one package-level variable that is only ever assigned by its package initialiser
+	if ua, ok := a.(*ssa.UnOp); ok && ua.Op == token.MUL {
+		if ub, ok := b.(*ssa.UnOp); ok && ub.Op == token.MUL && ua.X == ub.X {
+			if g, isG := ua.X.(*ssa.Global); isG && p.initOnlyGlobal(g) {
+				return true
+			}
+		}
 	}
 	sx := p.e.c.Sx()
 	as, bs := sx.Of(a).String(), sx.Of(b).String()
@@ -1351,4 +1360,146 @@ func (p *relProver) proveRegexpSubmatch(in ssa.Instruction, x, idx ssa.Value) (s
 		return "D11 regexp contract: index < len(re.SubexpNames()) = len(non-empty re.FindStringSubmatch(…))", true
 	}
 	return "", false
+}
+
+// D11 (dual): names[i] with names the SubexpNames() of the regexp that produced the submatch slice M and i < len(M).
+// i >= 0 and i < len(M) make M non-empty, hence len(M) == len(names). names and M may be chosen together by a switch
+// or an if (φs of the same block, paired edge by edge), and the regexp itself may be such a φ.
+func isEmptySliceVal(v ssa.Value) bool {
+	if k, ok := v.(*ssa.Const); ok && k.Value == nil {
+		return true
+	}
+	return false
+}
+
+func (p *relProver) submatchPairs(m, re ssa.Value, d int) bool {
+	if d > 3 {
+		return false
+	}
+	if cl, r := isRegexpCall(m, "FindStringSubmatch", "FindSubmatch"); cl != nil {
+		return p.same(r, re)
+	}
+	mp, ok := stripSliceConv(m).(*ssa.Phi)
+	if !ok {
+		return false
+	}
+	rp, rePhi := re.(*ssa.Phi)
+	for k, me := range mp.Edges {
+		if isEmptySliceVal(me) {
+			continue // len 0 on that path: no index below it
+		}
+		rk := re
+		if rePhi {
+			if rp.Block() != mp.Block() || k >= len(rp.Edges) {
+				return false
+			}
+			rk = rp.Edges[k]
+		}
+		if !p.submatchPairs(me, rk, d+1) {
+			return false
+		}
+	}
+	return true
+}
+
+func (p *relProver) namesPairs(n, m ssa.Value, d int) bool {
+	if d > 3 {
+		return false
+	}
+	if cl, re := isRegexpCall(n, "SubexpNames"); cl != nil {
+		return p.submatchPairs(m, re, d)
+	}
+	np, ok1 := stripSliceConv(n).(*ssa.Phi)
+	mp, ok2 := stripSliceConv(m).(*ssa.Phi)
+	if !ok1 || !ok2 || np.Block() != mp.Block() || len(np.Edges) != len(mp.Edges) {
+		return false
+	}
+	for k := range np.Edges {
+		if isEmptySliceVal(mp.Edges[k]) {
+			continue
+		}
+		if !p.namesPairs(np.Edges[k], mp.Edges[k], d+1) {
+			return false
+		}
+	}
+	return true
+}
+
+func (p *relProver) proveRegexpNames(in ssa.Instruction, x, idx ssa.Value) (string, bool) {
+	facts := p.factsAt(in.Block())
+	if p.lower(idx, facts, 0) < 0 {
+		return "", false
+	}
+	found := false
+	allInstrs(in.Parent(), func(i2 ssa.Instruction) {
+		if found {
+			return
+		}
+		m, ok := i2.(ssa.Value)
+		if !ok {
+			return
+		}
+		if _, isSl := m.Type().Underlying().(*types.Slice); !isSl {
+			return
+		}
+		switch i2.(type) {
+		case *ssa.Phi, *ssa.Call:
+		default:
+			return
+		}
+		if m == x {
+			return
+		}
+		if p.leqLen(idx, m, -1, facts, 0) && p.namesPairs(x, m, 0) {
+			found = true
+		}
+	})
+	if found {
+		return "D11 regexp contract: 0 <= index < len(M) for a submatch slice M, names = SubexpNames() of the regexp that produced M (paired edge by edge)", true
+	}
+	return "", false
+}
+
+// initOnlyGlobal: no function other than the package initialiser stores to g or takes its address for anything but a load
+func (p *relProver) initOnlyGlobal(g *ssa.Global) bool {
+	if p.initOnly == nil {
+		p.initOnly = map[*ssa.Global]bool{}
+	}
+	if v, ok := p.initOnly[g]; ok {
+		return v
+	}
+	ok := true
+	for _, f := range p.e.c.P.ModuleFuncs() {
+		if f.Pkg != g.Pkg {
+			continue
+		}
+		isInit := f.Name() == "init" || strings.HasPrefix(f.Name(), "init#")
+		allInstrs(f, func(in ssa.Instruction) {
+			for _, op := range in.Operands(nil) {
+				if op == nil || *op != ssa.Value(g) {
+					continue
+				}
+				switch t := in.(type) {
+				case *ssa.UnOp:
+					if t.Op != token.MUL {
+						ok = false
+					}
+				case *ssa.Store:
+					if !(isInit && t.Addr == ssa.Value(g)) {
+						ok = false
+					}
+				case *ssa.DebugRef:
+				default:
+					ok = false
+				}
+			}
+		})
+	}
+	if g.Pkg != nil {
+		if init := g.Pkg.Func("init"); init != nil && init.Blocks != nil {
+			_ = init
+		}
+	}
+	p.initOnly[g] = ok
+	return ok
 }
